@@ -966,7 +966,7 @@ def stub_rekey(interp, b):
 
 class SPGetter(FSContract):
     target = f"{JOB}.Job.statepoint"
-    properties = ("C02", "C03", "C08", "C09")
+    properties = ("C01", "C02", "C03", "C08", "C09")
     inline = GETTERS + (f"{JOB}._StatePointDict.__init__", f"{PRJ}.Project._register")
     callees = {f"{JOB}._StatePointDict.load": stub_sp_load}
 
@@ -1240,7 +1240,7 @@ class SNewDoc(Sym):
 
 class JobDocGetter(FSContract):
     target = f"{JOB}.Job.document"
-    properties = ("C05", "C10")
+    properties = ("C05", "C10", "C12")
     callees = {f"{JOB}.Job.init": stub_job_init}
     faults = False
 
@@ -1252,6 +1252,13 @@ class JobDocGetter(FSContract):
         from .jobfs import SDoc
         if ex.decide(None, "pre:document handle already open"):
             job.fields["_document"] = SDoc(LIn(proj.p, job.me, Name.DOC), True)
+        ctx.ghost["doc_writes"] = []
+        orig = ctx.doc_write
+
+        def doc_write(interp_, doc, what, *a):
+            ctx.ghost["doc_writes"].append(what)
+            return orig(interp_, doc, what)
+        ctx.doc_write = doc_write
         return [job], {}, {"job": job, "p": proj.p, "me": job.me, "had": job.fields["_document"]}
 
     def post(self, interp, case, pre, outcome):
@@ -1266,6 +1273,9 @@ class JobDocGetter(FSContract):
         if ok:
             ex.oblige(self.oname("ensures:handle_is_bound_to_this_job's_document_file"), z3.And(d.filename.p == p, d.filename.i == me, d.filename.name == Name.DOC))
         ex.oblige(self.oname("ensures:an_open_handle_is_reused"), z3.BoolVal(pre["had"] is None or d is pre["had"]))
+        k = JD.mk(p, me)
+        ex.oblige(self.oname("frame:getting_the_handle_never_writes_the_document_(a_read_must_not_race_with_another_process's_write)"),
+                  z3.And(z3.BoolVal(ctx.ghost["doc_writes"] == []), ctx.fs.ent[k][Name.DOC] == ctx.fs0.ent[k][Name.DOC]), note=str(ctx.ghost["doc_writes"]))
         ex.oblige(self.oname("ensures:job_directory_exists_before_a_new_handle_is_created"), z3.Implies(z3.BoolVal(pre["had"] is None), ctx.fs.dirs[JD.mk(p, me)]))
 
 
